@@ -54,7 +54,7 @@ M = [
  ("C11", "unsubscribe-one-group-deletes-node", "persistence/subscription/mem/topic_trie.go", "\t\t\tif len(pNode.shared) == 0 && len(pNode.children) == 0 {", "\t\t\tif len(pNode.children) == 0 {"),
  ("C11", "unsuball-keeps-shared-member", "persistence/subscription/mem/trie_db.go", "\t\t\tif c := node.shared[shareName]; c != nil {\n\t\t\t\tdelete(c, clientID)", "\t\t\tif c := node.shared[shareName]; c != nil {\n\t\t\t\t_ = clientID"),
  ("C12", "expiry-before", "persistence/queue/queue.go", "\t\treturn now.After(elem.Expiry)", "\t\treturn now.Before(elem.Expiry)"),
- ("C12", "remaining-not-rewritten", "server/client.go", "\t\t\t\tif d := uint32(now.Sub(v.At).Seconds()); d < m.Message.MessageExpiry {\n\t\t\t\t\tm.Message.MessageExpiry -= d", "\t\t\t\tif d := uint32(now.Sub(v.At).Seconds()); d < m.Message.MessageExpiry {\n\t\t\t\t\t_ = d"),
+ ("C12", "remaining-not-rewritten", "server/client.go", "\t\t\tremaining = msg.MessageExpiry - d\n", "\t\t\tremaining = msg.MessageExpiry\n"),
  ("C12", "drop-not-reported", "persistence/queue/mem/mem.go", "\t\t\tq.current = q.current.Next()\n\t\t\tq.notifier.NotifyDropped(v.Value.(*queue.Elem), queue.ErrDropExpired)", "\t\t\tq.current = q.current.Next()"),
  ("C13", "size-check-skipped", "persistence/queue/mem/mem.go", "if size := pub.TotalBytes(q.version); size > q.readBytesLimit {", "if size := pub.TotalBytes(q.version); false && size > q.readBytesLimit {"),
  ("C13", "alias-max-plus-one", "topicalias/fifo/fifo.go", "\tif l == q.topicAlias.max {", "\tif l == q.topicAlias.max+1 {"),
